@@ -104,10 +104,10 @@ SPEC = {
     "lean_modules": ["RsslVerif.Thm.C10"],
     "theorems": [T + n for n in [
         "token_progress", "token_error_in_input", "token_no_panic", "spans_tile", "reemit_reproduces_input",
-        "error_pos_in_range", "tokens_before_error_tile", "lexing_terminates", "read_panics_only_static_rest",
-        "release_build_never_panics", "debug_build_panics_on_unterminated_comment",
-        "int_value_exact", "int_value_exact_partial", "int_overflow_rejected", "literalInt_radix",
-        "int_value_exact_fails_for_suffix_l", "token_numeric_dispatch", "lex_float_nearest", "nearest64_unfold", "nearest_correct_partial",
+        "error_pos_in_range", "tokens_before_error_tile", "lexing_terminates", "read_never_panics",
+        "literalIntWith_closed", "int_value_exact", "int_overflow_rejected", "int_rejected_only_when_too_large",
+        "literalInt_radix", "token_numeric_dispatch", "lex_float_nearest", "nearest64_total", "nearest64_correct", "nearest64_zero",
+        "nearest_correct_partial", "nearest_correct", "nearest_monotone", "nearest64_monotone",
         "nearest_exact_on_representable"]],
     "harness": "c10",
     "nontrivial": nontrivial,
@@ -117,17 +117,17 @@ SPEC = {
     "level_text": "Proof: the lexer model (token_intermediate with every sub-lexer, TokenStream::next/read_to_end) is "
                   "proved, for every byte string, to produce tokens whose spans tile the file in order with no empty "
                   "token except the synthetic final endline, so that the slices re-emit the file; every diagnostic "
-                  "offset lies in [0,|file|]; every step consumes at least one byte; the only reachable panic is a "
-                  "debug-only assertion (known finding). Integer literals: accepted value = positional value of the "
-                  "maximal digit run < 2^64, larger runs are rejected (full); 'denotes the written value' holds except "
-                  "for suffix l on values >= 2^63, where the negation is proved with a witness replayed on the real "
-                  "lexer (known finding). Float literals: token bits = narrowOnce(suffix, nearest64(decimal text)) "
-                  "(full), where nearest64 is an exact Nat reference proved to return the nearest integer multiple of "
-                  "the unit in the last place of x's binade with ties to even, gradual underflow and saturation "
-                  "(nearest_correct_partial; comparison with finer-exponent representables and monotonicity not "
-                  "formalised) and to be exact on representable values. Rust's parse::<f64> / `as f32` are compared "
-                  "bit for bit with that reference and with an independent big-integer oracle on every run; literals "
-                  "are also compiled to HLSL and re-read (three more known findings in typer/formatter).",
+                  "offset lies in [0,|file|]; every step consumes at least one byte; no panic site is reachable in "
+                  "debug or release builds. Integer literals (full): an accepted literal denotes exactly the "
+                  "positional value of its maximal digit run, which fits the payload type; a run >= 2^64, or >= 2^63 "
+                  "with suffix l, or >= 2^32 with suffix u, is rejected with IntegerLiteralTooLarge at its first digit, and only then. Float "
+                  "literals (full): token bits = narrowOnce(suffix, nearest64(decimal text)), and nearest64 / "
+                  "nearestRat (exact Nat arithmetic) are proved to be IEEE 754 round-to-nearest-ties-to-even "
+                  "(IsNearestEven: ulp of x's binade with gradual underflow, no p-bit value closer, at most half an ulp, "
+                  "ties to even, overflow rule), total over all digit strings and exponents, exact on representable "
+                  "values and monotone. Rust's parse::<f64> / `as f32` are compared bit for bit with that reference and "
+                  "with an independent big-integer oracle on every run; literals are also compiled to HLSL and re-read "
+                  "(no open finding).",
     "rule": "requests = (flags, UTF-8 text) lexed token by token with the real TokenStream (and read_to_end, and unlex); "
             "every fixed spelling of every token kind alone, ordered pairs of operators/trivia/odd bytes glued, random "
             "token soups of 1-10 items with arbitrary trivia, both line endings and splices, and a numeric stream "
